@@ -79,6 +79,9 @@ type Pipe struct {
 	Lazy     bool          // deliver only when no task is runnable (coalesce everything)
 	Latency  time.Duration // added to every written burst
 	MaxRead  int           // cap on what one Read returns (0 = none)
+	// ErrWithData makes Read return the final bytes together with EOF / the
+	// reset error, as io.Reader permits, instead of in a separate call.
+	ErrWithData bool
 
 	wrClosed  bool // writer side closed: EOF after drain
 	rdClosed  bool // reader side closed: writes fail
@@ -430,6 +433,19 @@ func (c *Conn) Read(b []byte) (int, error) {
 				c.OnRead(b[:n])
 			}
 			p.wakeWriter()
+			// io.Reader allows the last bytes and the end condition to come out
+			// of the same call; transports layered on top of TCP do that
+			if p.ErrWithData && len(p.readable) == 0 && !c.closed {
+				switch {
+				case p.reset:
+					err = &net.OpError{Op: "read", Net: "tcp", Err: syscall.ECONNRESET}
+				case p.eofCut || (p.wrClosed && len(p.inflight) == 0):
+					err = io.EOF
+				}
+				if err != nil {
+					s.CountLocked("net.err-with-data", 1)
+				}
+			}
 		case p.reset:
 			err = &net.OpError{Op: "read", Net: "tcp", Err: syscall.ECONNRESET}
 		case p.eofCut || (p.wrClosed && len(p.inflight) == 0):
@@ -452,7 +468,9 @@ func (c *Conn) Read(b []byte) (int, error) {
 			} else if err == nil && n > 0 {
 				c.deadReads = 0
 			}
-			if err != nil {
+			if err != nil && n > 0 {
+				s.LogLocked("read", c.name+" "+strconv.Itoa(n)+" with err "+errClass(err))
+			} else if err != nil {
 				s.LogLocked("read", c.name+" err "+errClass(err))
 			} else {
 				s.LogLocked("read", c.name+" "+strconv.Itoa(n))
